@@ -26,16 +26,19 @@ Theorem C05_matrix_refuted_decl_reinterprets :
 Proof. exact refuted_decl_reinterprets. Qed.
 Print Assumptions C05_matrix_refuted_decl_reinterprets.
 
-Theorem C05_matrix_refuted_port_out_reversed :
-  assign_ok FPortOut (CU 8) (CU 4) = true /\ doc_ok (CU 8) (CU 4) = false /\
-  assign_ok FPortOut (CU 4) (CU 8) = false /\ doc_ok (CU 4) (CU 8) = true /\
-  assign_ok FPortOut (CS 4) (CU 8) = false /\ assign_ok FPortOut (CU 2) (CS 4) = false /\ assign_ok FPortOut (CS 4) (CU 2) = true.
-Proof. exact refuted_port_out_reversed. Qed.
-Print Assumptions C05_matrix_refuted_port_out_reversed.
+(** sub-entity port connections (tree as patched by efe8b9f): whatever is accepted connects identical types, so no
+    conversion is needed in the port map; documented widenings are over-rejected *)
+Theorem C05_port_forms_sound : forall f src tgt,
+  (f = FPortIn \/ f = FPortOut) -> assign_ok f src tgt = true -> src = tgt.
+Proof. exact port_forms_sound. Qed.
+Print Assumptions C05_port_forms_sound.
 
-Theorem C05_matrix_refuted_port_in_untyped : assign_ok FPortIn CInteger CBit = true /\ doc_ok CInteger CBit = false.
-Proof. exact refuted_port_in_untyped. Qed.
-Print Assumptions C05_matrix_refuted_port_in_untyped.
+Theorem C05_port_forms_patched :
+  assign_ok FPortOut (CU 8) (CU 4) = false /\ assign_ok FPortIn CInteger CBit = false /\
+  assign_ok FPortOut (CU 4) (CU 8) = false /\ assign_ok FPortIn (CU 2) (CU 3) = false /\ doc_ok (CU 2) (CU 3) = true /\
+  assign_ok FPortIn (CU 3) (CU 3) = true /\ assign_ok FPortOut (CS 3) (CS 3) = true.
+Proof. exact port_forms_patched. Qed.
+Print Assumptions C05_port_forms_patched.
 
 Theorem C05_matrix_refuted_truthiness :
   assign_ok FNextOp (CU 4) CBool = true /\ doc_ok (CU 4) CBool = false /\
@@ -46,7 +49,7 @@ Print Assumptions C05_matrix_refuted_truthiness.
 Theorem C05_matrix_over_rejected :
   assign_ok FIfB (CU 2) CInteger = false /\ assign_ok FIfA (CU 2) CInteger = true /\ doc_ok (CU 2) CInteger = true /\
   assign_ok (FSlice KS) CNull (CU 2) = false /\ doc_ok CNull (CU 2) = true /\
-  assign_ok FPortIn CNull (CU 2) = false.
+  assign_ok FPortIn CNull (CU 2) = false /\ assign_ok FPortOut (CU 2) (CU 3) = false.
 Proof. exact over_rejected. Qed.
 Print Assumptions C05_matrix_over_rejected.
 
